@@ -103,6 +103,9 @@ def gen_universe(rng: random.Random, **opts: Any) -> dict:
                 )
         if opts.get("link_repertoire"):
             links = gen_link_repertoire(rng, kinds, props, required, qparams, id_type, opts)
+        path_level = None
+        if rng.random() < opts.get("p_path_level", 0.0):
+            path_level = {"on": rng.choice(["coll", "item"]), "override": rng.random() < 0.6, "extra": rng.random() < 0.7}
         coll = {
             "name": name,
             "id_type": id_type,
@@ -122,7 +125,7 @@ def gen_universe(rng: random.Random, **opts: Any) -> dict:
                 if rng.random() < opts.get("p_no_opid", 0.15)
                 and not any(l["by"] == "operationId" and l["to"] == k for l in links)
             ],
-            "path_level": None,
+            "path_level": path_level,
             "examples": [],
             "upper_methods": rng.random() < opts.get("p_upper_methods", 0.0),
             "nested": ("create" in kinds and rng.random() < opts.get("p_nested", 0.0)),
@@ -138,6 +141,8 @@ def gen_universe(rng: random.Random, **opts: Any) -> dict:
         "collections": collections,
         "layout": opts.get("layout", "single"),
         "format": opts.get("format", "json"),
+        "yaml_quirks": bool(opts.get("yaml_quirks")),
+        "ref_paths": [rng.random() < 0.5 for _ in range(2 * len(collections))] if opts.get("layout") == "multi" else None,
         "security": opts.get("security"),
     }
 
@@ -175,6 +180,12 @@ def gen_link_repertoire(rng, kinds, props, required, qparams, id_type, opts) -> 
                       "requestBody": body, "merge_body": rng.random() < 0.5})
     if "list" in kinds and "read" in kinds and rng.random() < 0.5:
         links.append({"from": "list", "to": "read", "key": "200", "by": "operationId", "params": {"id": "$response.body#/0/id"}})
+    if "list" in kinds:
+        pq = [q["name"] for q in qparams if q["name"] in ("page", "limit", "sort")]
+        if pq and rng.random() < 0.8:
+            # "same listing again": every declared query parameter is carried over from the source request
+            links.append({"from": "list", "to": "list", "key": "200", "by": "operationId",
+                          "params": {rng.choice(["query.", ""]) + n: f"$request.query.{n}" for n in pq}})
     bad = opts.get("malformed_link")
     if bad and links:
         victim = rng.choice(links)
@@ -341,6 +352,34 @@ class Universe:
                     responses=list(responses),
                 )
                 self.ops[key].secured = secured
+            pl = coll.get("path_level")
+            if pl:
+                ppath = coll_path if pl["on"] == "coll" else item_path
+                if ppath in paths:
+                    plist = []
+                    if pl.get("extra"):
+                        # defined only at path level: inherited by every operation of the path
+                        d = {"name": "X-Path", "in": "header", "required": True, "schema": {"type": "string", "enum": [f"pl-{name}"]}}
+                        plist.append(d)
+                        for mk, opdef in paths[ppath].items():
+                            k = f"{mk.upper()} {ppath}"
+                            self.ops[k].params.append(RefParam("X-Path", "header", d["schema"], True, level="path", marker=f"pl-{name}"))
+                    if pl.get("override"):
+                        # same name and location as an operation-level parameter: the operation-level one wins
+                        for mk, opdef in paths[ppath].items():
+                            k = f"{mk.upper()} {ppath}"
+                            first = next((q for q in opdef.get("parameters", []) if q["in"] == "query"), None)
+                            if first is None:
+                                q = {"name": "mark", "in": "query", "required": True, "schema": {"type": "string", "enum": [f"op-{mk}"]}}
+                                opdef.setdefault("parameters", []).append(q)
+                                self.ops[k].params.append(RefParam("mark", "query", q["schema"], True, marker=f"op-{mk}"))
+                        plist.append({"name": "mark", "in": "query", "required": True, "schema": {"type": "string", "enum": ["path-level"]}})
+                        for mk, opdef in paths[ppath].items():
+                            k = f"{mk.upper()} {ppath}"
+                            if not any(q.name == "mark" and q.location == "query" for q in self.ops[k].params):
+                                self.ops[k].params.append(RefParam("mark", "query", plist[-1]["schema"], True, level="path", marker="path-level"))
+                    if plist:
+                        paths[ppath]["parameters"] = plist
             if coll.get("nested"):
                 self._build_nested(coll, paths, id_schema, err)
             # links
@@ -467,11 +506,60 @@ class Universe:
     # -- serving ---------------------------------------------------------------------------------
     def files(self) -> dict[str, tuple[bytes, str]]:
         """path -> (bytes, content-type) for the document endpoints."""
-        if self.desc.get("format") == "yaml":
+        desc = self.desc
+        fmt = desc.get("format", "json")
+        ext = "yaml" if fmt == "yaml" else "json"
+        ctype = "application/yaml" if fmt == "yaml" else "application/json"
+
+        def dump(doc: Any) -> bytes:
+            if fmt != "yaml":
+                return json.dumps(doc).encode()
             import yaml
 
-            return {"/openapi.yaml": (yaml.safe_dump(self.doc, sort_keys=False).encode(), "application/yaml")}
-        return {"/openapi.json": (json.dumps(self.doc).encode(), "application/json")}
+            text = yaml.safe_dump(doc, sort_keys=False, default_flow_style=False)
+            if desc.get("yaml_quirks"):
+                # what a hand-written YAML document looks like: unquoted status codes, on/off keys, date-like scalars
+                text = re.sub(r"'(\d{3})':", r"\1:", text)
+                text = re.sub(r"'(on|off|yes|no)':", r"\1:", text)
+                text = re.sub(r"'(\d{4}-\d{2}-\d{2})'", r"\1", text)
+            return text.encode()
+
+        doc = self.doc
+        if desc.get("yaml_quirks"):
+            doc = copy.deepcopy(doc)
+            for name, sch in doc["components"]["schemas"].items():
+                if name.startswith("New"):
+                    sch["properties"]["on"] = {"type": "boolean"}
+                    sch["properties"]["since"] = {"type": "string", "example": "2020-01-01"}
+        if desc.get("layout") != "multi":
+            return {f"/openapi.{ext}": (dump(doc), ctype)}
+        # three files: root, paths, common. Path items behind $ref use schemas from the common file; inline path items
+        # keep their local #/components references (resolved against the root document).
+        root = copy.deepcopy(doc)
+        flags = desc.get("ref_paths") or []
+        paths_file: dict[str, Any] = {}
+        common = {"components": {"schemas": copy.deepcopy(doc["components"]["schemas"])}}
+
+        def rewrite(node: Any) -> Any:
+            if isinstance(node, dict):
+                return {k: (v.replace("#/components/schemas/", f"common.{ext}#/components/schemas/") if k == "$ref" and isinstance(v, str) else rewrite(v))
+                        for k, v in node.items()}
+            if isinstance(node, list):
+                return [rewrite(x) for x in node]
+            return node
+
+        self.ref_paths = []
+        for i, (pth, item) in enumerate(list(root["paths"].items())):
+            if i < len(flags) and flags[i]:
+                key = "item%d" % i
+                paths_file[key] = rewrite(item)
+                root["paths"][pth] = {"$ref": f"paths.{ext}#/{key}"}
+                self.ref_paths.append(pth)
+        return {
+            f"/openapi.{ext}": (dump(root), ctype),
+            f"/paths.{ext}": (dump(paths_file), ctype),
+            f"/common.{ext}": (dump(common), ctype),
+        }
 
     @property
     def schema_url(self) -> str:
